@@ -530,3 +530,19 @@ def skeleton(items):
         elif isinstance(it, Splice):
             out.append(("splice", vkey(it.value)))
     return tuple(out)
+
+
+def same_grid(a, b) -> bool:
+    """equality of two Grids up to the names of their index atoms"""
+    if not (isinstance(a, Grid) and isinstance(b, Grid)) or len(a.dims) != len(b.dims):
+        return False
+    m = {}
+    for da, db in zip(a.dims, b.dims):
+        if len(da) != len(db):
+            return False
+        for (ia, ea), (ib, eb) in zip(da, db):
+            if ea != eb:
+                return False
+            if ia != ib:
+                m[ib] = Poly.atom(ia)
+    return vkey(subst(b.elem, m)) == vkey(a.elem)
